@@ -5,7 +5,7 @@ import SqlObjVerif.Model.DrvUtil
 `reset docache lazy0 cv0 n0 fk0 codec0 … ` (codec: `-` or `j<col>` = that column stores a tagged representation: stored = shown + 1000) (fk: `-`, `n<T>` = ForeignKey to class T cascade='null', `c<T>` = cascade=True) | `create h cls id c=v…` | `fetch h cls id 0|1` | `refresh h` | `selstmt cls` |
 `read h c` | `setattr h c v fail` | `set h fail c=v…` | `syncupdate h fail` | `sync h fail` | `expire h` |
 `expireall` | `expireallcls cls` | `destroy h [S<k> | r<hr> | R<hr>:<k>:<id>]…` (dependents loop: select over class k, held / library-built referencing instance) | `pickle h fail` | `drop h` | `oobupdate cls id c v` |
-`oobdelete cls id` | `bulkdelete cls id…` | `oobinsert cls id c=v…` | `peek h` | `row cls id`
+`oobdelete cls id` | `bulkdelete cls id…` | `unpickle h cls id clash c=v…` (attribute values in the pickled state) | `oobinsert cls id c=v…` | `peek h` | `row cls id`
 Values: integer, `N` (None), `B` (rejected by the validator).
 Answer of an operation: `<out> | <statements sent by it> | u=<UPDATE statements sent by it>`. -/
 namespace SqlObjVerif.OrmVal.Drv
@@ -39,6 +39,7 @@ def showOut : Out → String
   | .invalid => "Invalid"
   | .dbError => "DbError"
   | .assertion => "Assert"
+  | .valueError => "ValueError"
   | .badCol => "bad-col"
   | .badHandle => "bad-handle"
 
@@ -145,6 +146,9 @@ def parseOp (ws : List String) : Option Op :=
     | some h, some f => some (.pickle h f)
     | _, _ => none
   | ["drop", h] => h.toNat?.map .drop
+  | "unpickle" :: h :: c :: i :: cl :: kvs => match h.toNat?, c.toNat?, i.toNat?, bool? cl, all? (kvs.map (kv? val?)) with
+    | some h, some c, some i, some cl, some kvs => some (.unpickle h c i kvs cl)
+    | _, _, _, _, _ => none
   | "bulkdelete" :: c :: ids => match c.toNat?, all? (ids.map (·.toNat?)) with
     | some c, some ids => some (.bulkDelete c ids)
     | _, _ => none
